@@ -56,7 +56,7 @@ func propPackages(repo, prop string) ([]string, error) {
 		if err != nil {
 			return nil
 		}
-		if strings.Contains(string(data), "["+prop+".") || strings.Contains(string(data), "["+prop+"]") {
+		if strings.Contains(string(data), "["+prop+".") || strings.Contains(string(data), "["+prop+"]") || (prop == "C10" && strings.Contains(string(data), "//@   deterministic")) {
 			rel, _ := filepath.Rel(repo, filepath.Dir(p))
 			pkgs = append(pkgs, "./"+rel)
 		}
@@ -188,7 +188,7 @@ func RunCheck(o CheckOpts) int {
 	}
 	results := make([]*OblResult, len(all))
 	var wg sync.WaitGroup
-	sem := make(chan struct{}, 5)
+	sem := make(chan struct{}, 6)
 	for i, ob := range all {
 		wg.Add(1)
 		go func(i int, ob *Obligation) {
@@ -206,6 +206,12 @@ func RunCheck(o CheckOpts) int {
 				results[i] = r
 				return
 			}
+			if ob.Kind == "determinism" && ob.Goal == "false" && ob.Guard != "false" {
+				// a statically detected order dependence: reported without asking the solvers to refute reachability
+				r.Status = "order-dependent"
+				results[i] = r
+				return
+			}
 			if len(q) > 4<<20 {
 				r.Status = "too-large"
 				results[i] = r
@@ -213,7 +219,7 @@ func RunCheck(o CheckOpts) int {
 			}
 			to := timeout
 			if ob.Kind == "cover" {
-				to = 2 * time.Second
+				to = 1 * time.Second
 			}
 			res := Solve(dir, fmt.Sprintf("%d_%s", i, id), q, to, false)
 			r.Status, r.Backend, r.Ms, r.res = res.Status, res.Backend, res.Ms, res
@@ -366,6 +372,9 @@ func broken(o CheckOpts, why string) int {
 }
 
 func contractMentions(fc *FuncContract, prop string) bool {
+	if prop == "C10" && fc.Deterministic {
+		return true
+	}
 	cs := append(append([]Clause{}, fc.Requires...), fc.Ensures...)
 	for _, l := range fc.Loops {
 		cs = append(cs, l.Invariants...)
